@@ -119,6 +119,10 @@ void h_merge_basic(void)
     any_ds(&a); any_ds(&b);
     ASSUME(!isnan(a.min) && !isnan(a.max) && !isnan(b.min) && !isnan(b.max));
     ASSUME(a.count <= UINT64_MAX - b.count);
+    /* representation invariant of a valid summary: an empty one has the extrema that initialize sets
+     * (add is the only other writer of min/max) */
+    ASSUME(a.count != 0u || (a.min == DBL_MAX && a.max == -DBL_MAX));
+    ASSUME(b.count != 0u || (b.min == DBL_MAX && b.max == -DBL_MAX));
     const struct cmb_datasummary oa = a, ob = b;
     const _Bool into_a = nondet_bool(), into_b = nondet_bool();
     struct cmb_datasummary *tgt = into_a ? &a : (into_b ? &b : &t);
